@@ -447,11 +447,32 @@ def main_check(mod):
     project = getattr(mod, "project", lambda line, raw: raw)
     model_input = getattr(mod, "model_input", lambda line, raw: line)
 
+    # Simulated-world runs: a listener channel holds 10 events and is read between iterations
+    # only, so an iteration that sends an 11th event to one listener blocks the daemon thread
+    # (known finding C14-full-listener-blocks-daemon). Such a run is judged by C14 alone.
+    sim_mode = bool(h_args and "sim" in h_args)
+    judges_overflow = bool(getattr(mod, "JUDGES_LISTENER_OVERFLOW", False))
+
+    def listener_overflow(raw):
+        if '"stuck"' not in raw:
+            return False
+        try:
+            tr = json.loads(raw).get("trace", [])
+        except ValueError:
+            return False
+        if any(t.get("exited") or t.get("panicked") for t in tr):
+            return False
+        st = [t for t in tr if t.get("stuck")]
+        return bool(st) and max([len(v) for v in (st[-1].get("events") or {}).values()] or [0]) >= 10
+
     def run_impl(ls):
         raws = run_cases(binp, ls, h_env, h_args, per_shard)
         obs = []
         for l, r in zip(ls, raws):
             try:
+                if sim_mode and not judges_overflow and listener_overflow(r):
+                    obs.append("SKIP")
+                    continue
                 obs.append(project(l, r) if r not in ("HANG", "CRASH", "PANIC", "NOOUTPUT") else r)
             except Exception as e:  # a projection failure is a harness problem, made visible
                 obs.append("BADPROJECTION %s" % (repr(e)[:200]))
